@@ -1,5 +1,7 @@
 import RaptorModel.Props.C02
 import RaptorModel.Model.ParSpmv
+import Mathlib.Data.List.Perm.Basic
+import Mathlib.Data.List.Nodup
 /-!
 # C02 — the distributed mat-vec is the global product, on every partition
 
@@ -339,6 +341,183 @@ theorem parMultT_global (bs : List (Blk K)) (X : List K) (hWF : ∀ B ∈ bs, Bl
 
 end Transpose
 
+/-! ## assembly (`distribute`): the hypotheses hold on every layout, and the conclusions speak of the triplets -/
+section Distribute
+theorem mem_haloCols (l : Rank) (es : List (Entry K)) (e : Entry K) (he : e ∈ es)
+    (h : (l.ownsRow e.1 && !l.ownsCol e.2.1) = true) : e.2.1 ∈ haloCols l es := by
+  unfold haloCols
+  rw [List.mem_mergeSort, List.mem_eraseDups]
+  exact List.mem_map.mpr ⟨e, List.mem_filter.mpr ⟨he, h⟩, rfl⟩
+
+theorem ownsRow_iff (l : Rank) (i : Nat) : l.ownsRow i = true ↔ l.2.2.1 ≤ i ∧ i < l.2.2.1 + l.1 := by
+  simp [Rank.ownsRow]
+theorem ownsCol_iff (l : Rank) (j : Nat) : l.ownsCol j = true ↔ l.2.2.2 ≤ j ∧ j < l.2.2.2 + l.2.1 := by
+  simp [Rank.ownsCol]
+
+theorem shift_getD (n f k : Nat) (hk : k < n) : ((List.range n).map (· + f)).getD k 0 = k + f := by
+  simp [List.getD_eq_getElem?_getD, List.getElem?_map, List.getElem?_range hk]
+
+theorem distributeRank_WF (l : Rank) (es : List (Entry K)) : Blk.WF (distributeRank l es) := by
+  refine ⟨?_, ?_⟩
+  · intro e he
+    simp only [distributeRank] at he
+    obtain ⟨e0, he0, rfl⟩ := List.mem_map.mp he
+    have hp := (List.mem_filter.mp he0).2
+    rw [Bool.and_eq_true, ownsRow_iff, ownsCol_iff] at hp
+    simp only [distributeRank, List.length_map, List.length_range]
+    omega
+  · intro e he
+    simp only [distributeRank] at he
+    obtain ⟨e0, he0, rfl⟩ := List.mem_map.mp he
+    have hm := List.mem_filter.mp he0
+    have hp := hm.2
+    have hmem := mem_haloCols l es e0 hm.1 hp
+    rw [Bool.and_eq_true, ownsRow_iff] at hp
+    simp only [distributeRank, List.length_map, List.length_range]
+    exact ⟨by omega, List.idxOf_lt_length_of_mem hmem⟩
+
+/-- read through its maps, the block of a rank is the list of the entries of its rows: first those in its own columns, then the others -/
+theorem distributeRank_global (l : Rank) (es : List (Entry K)) :
+    (distributeRank l es).global
+      = es.filter (fun e => l.ownsRow e.1 && l.ownsCol e.2.1) ++ es.filter (fun e => l.ownsRow e.1 && !l.ownsCol e.2.1) := by
+  rw [global_eq]
+  congr 1
+  · simp only [distributeRank, globalize, List.map_map]
+    conv => rhs; rw [← List.map_id (es.filter _)]
+    apply List.map_congr_left
+    intro e he
+    have hp := (List.mem_filter.mp he).2
+    rw [Bool.and_eq_true, ownsRow_iff, ownsCol_iff] at hp
+    simp only [Function.comp, id]
+    rw [shift_getD _ _ _ (by omega), shift_getD _ _ _ (by omega)]
+    ext <;> simp <;> omega
+  · simp only [distributeRank, globalize, List.map_map]
+    conv => rhs; rw [← List.map_id (es.filter _)]
+    apply List.map_congr_left
+    intro e he
+    have hm := List.mem_filter.mp he
+    have hp := hm.2
+    have hmem := mem_haloCols l es e hm.1 hp
+    rw [Bool.and_eq_true, ownsRow_iff] at hp
+    simp only [Function.comp, id]
+    rw [shift_getD _ _ _ (by omega)]
+    have hidx : (haloCols l es).getD ((haloCols l es).idxOf e.2.1) 0 = e.2.1 := by
+      rw [List.getD_eq_getElem?_getD, List.getElem?_eq_getElem (List.idxOf_lt_length_of_mem hmem)]
+      simp
+    rw [hidx]
+    ext <;> simp <;> omega
+
+theorem distributeRank_global_perm (l : Rank) (es : List (Entry K)) :
+    (distributeRank l es).global.Perm (es.filter fun e => l.ownsRow e.1) := by
+  rw [distributeRank_global]
+  have h1 : es.filter (fun e => l.ownsRow e.1 && l.ownsCol e.2.1) = (es.filter fun e => l.ownsRow e.1).filter (fun e => l.ownsCol e.2.1) := by
+    rw [List.filter_filter]; congr 1; funext e; exact Bool.and_comm _ _
+  have h2 : es.filter (fun e => l.ownsRow e.1 && !l.ownsCol e.2.1) = (es.filter fun e => l.ownsRow e.1).filter (fun e => !l.ownsCol e.2.1) := by
+    rw [List.filter_filter]; congr 1; funext e; exact Bool.and_comm _ _
+  rw [h1, h2]
+  exact List.filter_append_perm _ _
+
+section Assembled
+variable [CommSemiring K]
+
+theorem actE_filter_rows (p : Nat → Bool) (es : List (Entry K)) (X : List K) (g : Nat) (hg : p g = true) :
+    actE (es.filter fun e => p e.1) X g = actE es X g := by
+  unfold actE
+  rw [List.filter_filter]
+  congr 2
+  apply List.filter_congr
+  intro e _
+  by_cases h : e.1 = g
+  · simp [h, hg]
+  · simp [h]
+
+omit [CommSemiring K] in
+theorem rowMap_nodup (l : Rank) (es : List (Entry K)) : (distributeRank l es).rowMap.Nodup := by
+  simp only [distributeRank]
+  exact List.Nodup.map (fun a b h => by simpa using h) List.nodup_range
+
+/-- **mat-vec on an assembled layout.** For any rank description `l` (any first row, any sizes,
+    any column block) and any triplet list, local row `i` of `ParMatrix::mult` on the blocks that
+    assembly gives this rank is row `first_row + i` of the global product. -/
+theorem parMult_distribute (l : Rank) (es : List (Entry K)) (X : List K) (i : Nat) (hi : i < l.1) :
+    (multBlk (distributeRank l es) (gatherMap (distributeRank l es).onColMap X)
+        (gatherMap (distributeRank l es).offColMap X)).getD i 0 = actE es X (i + l.2.2.1) := by
+  have hlen : (distributeRank l es).rowMap.length = l.1 := by simp [distributeRank]
+  have hi' : i < (distributeRank l es).rowMap.length := by rw [hlen]; exact hi
+  rw [multBlk_global _ X (distributeRank_WF l es) (rowMap_nodup l es) i hi']
+  have hrow : (distributeRank l es).rowMap.getD i 0 = i + l.2.2.1 := by
+    simp only [distributeRank]; exact shift_getD _ _ _ hi
+  rw [hrow, actE_perm (distributeRank_global_perm l es) X _]
+  exact actE_filter_rows (fun r => l.ownsRow r) es X _ (by rw [ownsRow_iff]; omega)
+
+theorem actTE_flatMap {α : Type} (f : α → List (Entry K)) (l : List α) (X : List K) (g : Nat) :
+    actTE (l.flatMap f) X g = (l.map fun a => actTE (f a) X g).sum := by
+  induction l with
+  | nil => rfl
+  | cons a l ih => rw [List.flatMap_cons, actTE_append, ih, List.map_cons, List.sum_cons]
+
+/-- when every stored row has exactly one owner, the assembled object holds every entry exactly once -/
+theorem actTE_image_distribute (layout : List Rank) (es : List (Entry K)) (X : List K) (g : Nat)
+    (hown : ∀ e ∈ es, (layout.filter fun l => l.ownsRow e.1).length = 1) :
+    actTE (image (distribute layout es)) X g = actTE es X g := by
+  have h0 : image (distribute layout es) = layout.flatMap fun l => (distributeRank l es).global := by
+    simp [image, distribute, List.flatMap_map]
+  rw [h0, actTE_flatMap]
+  have h1 : (layout.map fun l => actTE (distributeRank l es).global X g)
+      = layout.map fun l => actTE (es.filter fun e => l.ownsRow e.1) X g := by
+    apply List.map_congr_left
+    intro l _
+    exact actTE_perm (distributeRank_global_perm l es) X g
+  rw [h1]
+  clear h0 h1
+  induction es with
+  | nil => simp [actTE_nil]
+  | cons e es ih =>
+    have hstep : (layout.map fun l => actTE ((e :: es).filter fun e' => l.ownsRow e'.1) X g)
+        = layout.map fun l => (if l.ownsRow e.1 = true then (if e.2.1 = g then e.2.2 * at' X e.1 else 0) else 0)
+            + actTE (es.filter fun e' => l.ownsRow e'.1) X g := by
+      apply List.map_congr_left
+      intro l _
+      by_cases hp : l.ownsRow e.1 = true
+      · rw [List.filter_cons_of_pos (by simpa using hp), actTE_cons, if_pos hp]
+      · rw [List.filter_cons_of_neg (by simpa using hp), if_neg hp, zero_add]
+    rw [hstep, List.sum_map_add, ih (fun e' h => hown e' (List.mem_cons_of_mem _ h)), actTE_cons]
+    congr 1
+    have h1 := hown e List.mem_cons_self
+    have : (layout.map fun l => if l.ownsRow e.1 = true then (if e.2.1 = g then e.2.2 * at' X e.1 else 0) else 0).sum
+        = ((layout.filter fun l => l.ownsRow e.1).map fun _ => (if e.2.1 = g then e.2.2 * at' X e.1 else 0)).sum := by
+      rw [sum_map_filter]
+    rw [this]
+    obtain ⟨a, ha⟩ := List.length_eq_one_iff.mp h1
+    rw [ha]
+    simp
+
+/-- **transposed mat-vec on an assembled layout**: position `j` of rank `l` receives column
+    `first_col + j` of the transposed global product, for every layout whose column blocks are
+    disjoint and in which every stored row has exactly one owner (empty ranks, ranks with columns
+    but no rows, unequal blocks all included). -/
+theorem parMultT_distribute (layout : List Rank) (es : List (Entry K)) (X : List K)
+    (hcols : (layout.flatMap fun l => (List.range l.2.1).map (· + l.2.2.2)).Nodup)
+    (hown : ∀ e ∈ es, (layout.filter fun l => l.ownsRow e.1).length = 1)
+    (l : Rank) (hl : l ∈ layout) (j : Nat) (hj : j < l.2.1) :
+    (multTBlk (distribute layout es) (fun B' => gatherMap B'.rowMap X) (distributeRank l es)).getD j 0
+      = actTE es X (j + l.2.2.2) := by
+  have hWF : ∀ B ∈ distribute layout es, Blk.WF B := by
+    intro B hB
+    obtain ⟨l0, _, rfl⟩ := List.mem_map.mp hB
+    exact distributeRank_WF l0 es
+  have hc : ((distribute layout es).flatMap (·.onColMap)).Nodup := by
+    simpa [distribute, List.flatMap_map, distributeRank] using hcols
+  have hmem : distributeRank l es ∈ distribute layout es := List.mem_map_of_mem hl
+  have hlen : (distributeRank l es).onColMap.length = l.2.1 := by simp [distributeRank]
+  rw [parMultT_global _ X hWF hc _ hmem j (by rw [hlen]; exact hj), actTE_image_distribute layout es X _ hown]
+  congr 1
+  simp only [distributeRank]; exact shift_getD _ _ _ hj
+
+end Assembled
+
+end Distribute
+
 /-! ## non-vacuity: a 3 × 3 matrix on two ranks (rank 1 reads column 0 of rank 0 through its halo) -/
 section Example
 def exB0 : Blk Int := { rowMap := [0, 1], onColMap := [0, 1], offColMap := [2], on := [(0, 0, 2), (1, 1, 3), (0, 1, -1)], off := [(1, 0, 5)] }
@@ -351,6 +530,17 @@ example : multBlk exB0 (gatherMap exB0.onColMap exX) (gatherMap exB0.offColMap e
 example : multBlk exB1 (gatherMap exB1.onColMap exX) (gatherMap exB1.offColMap exX) = [407] := by decide
 example : multTBlk [exB0, exB1] (fun B' => gatherMap B'.rowMap exX) exB0 = [702, 29] := by decide
 example : multTBlk [exB0, exB1] (fun B' => gatherMap B'.rowMap exX) exB1 = [450] := by decide
+
+/-- the assembled-layout theorems are not vacuous: two ranks with unequal blocks, the second reading a halo column -/
+def exLayout : List Rank := [(2, 2, 0, 0), (1, 1, 2, 2)]
+def exEs : List (Entry Int) := [(0, 0, 2), (1, 1, 3), (0, 1, -1), (1, 2, 5), (2, 2, 4), (2, 0, 7)]
+example : (exLayout.flatMap fun l => (List.range l.2.1).map (· + l.2.2.2)).Nodup ∧
+    ∀ e ∈ exEs, (exLayout.filter fun l => l.ownsRow e.1).length = 1 := by decide
+example : (multBlk (distributeRank (2, 2, 0, 0) exEs) (gatherMap (distributeRank (2, 2, 0, 0) exEs).onColMap exX)
+    (gatherMap (distributeRank (2, 2, 0, 0) exEs).offColMap exX)).getD 1 0 = 530 := by
+  rw [parMult_distribute (2, 2, 0, 0) exEs exX 1 (by decide)]; decide
+example : (multTBlk (distribute exLayout exEs) (fun B' => gatherMap B'.rowMap exX) (distributeRank (1, 1, 2, 2) exEs)).getD 0 0 = 450 := by
+  rw [parMultT_distribute exLayout exEs exX (by decide) (by decide) (1, 1, 2, 2) (by decide) 0 (by decide)]; decide
 end Example
 
 end Raptor.C02Par
